@@ -178,15 +178,17 @@ CLAIMED = {
              "containers have none; stroke growth by delta on every side. For arcs the algebraic part is proved (C08_arc_ellipse_box: every point "
              "of the arc's denotation lies in the whole ellipse's box; C08_arc_critical_touches / C08_arc_touch_is_critical: that box is "
              "touched exactly where a coordinate's derivative vanishes; C08_arc_candidate_angles / _axis: the angles Arc.bbox collects are "
-             "those; C08_arc_pointAtT_is_den ties the evaluator the driver runs to that denotation). Boxes of partial arcs (monotonicity "
-             "between consecutive collected parameters is a trigonometric argument), and cubics with a leading coefficient strictly inside the "
-             "threshold, are NOT proved: the transcribed "
+             "those; C08_arc_pointAtT_is_den ties the evaluator the driver runs to that denotation), and so is the analytic part over the reals "
+             "(C08_arc_between_candidates: between two parameters with no critical parameter strictly inside, the coordinate stays between "
+             "its two end values - intermediate value theorem for the derivative's sign, mean value theorem for monotonicity). Not proved: "
+             "that the nine k-shifted candidates the code converts through angle_inv (degrees, theta, delta) enumerate every critical "
+             "parameter inside a partial sweep, and cubics with a leading coefficient strictly inside the threshold: the transcribed "
              "algorithms (Model/BBox.lean) are compared with the code, and a dense-sampling + ternary-refinement oracle checks "
              "containment and tightness of all four sides on the implementation, for segments, shapes/paths/subpaths in all four "
              "(transformed, with_stroke) combinations with painted/none/unset strokes, and groups.",
-        note="Partial: boxes of partial elliptical arcs (and cubics with 0 < |leading coefficient| < 1e-8) are decided by correspondence + oracle, not by theorem. Known finding "
+        note="Partial: the enumeration of critical parameters inside a partial elliptical arc (angle_inv) (and cubics with 0 < |leading coefficient| < 1e-8) are decided by correspondence + oracle, not by theorem. Known finding "
              "C08-roundshape-bbox. Sampling oracle resolution 161 samples + refinement, tolerance 2e-7 of the object size.",
-        technique="Lean 4 proof (ordered-field case analysis, nlinarith, list induction) for lines/quadratics/cubics/unions/stroke + differential correspondence + sampling oracle (partial arcs: ellipse-box containment, touching and candidate angles proved, the selection among candidates decided by correspondence + oracle)",
+        technique="Lean 4 proof (ordered-field case analysis, nlinarith, list induction) for lines/quadratics/cubics/unions/stroke + differential correspondence + sampling oracle (arcs: ellipse-box containment, touching iff critical, candidate angles and monotonicity between candidates proved; the enumeration of candidates inside the sweep decided by correspondence + oracle)",
         ref="DESIGN.md §4 C08"),
     "C06": dict(
         text="Lean 4 theorems: the rect corner-radius decision table equals the SVG 2 10.2 used values for every given/omitted/zero/"
